@@ -375,6 +375,8 @@ def pf_scaled(D, T=3, base='storage', fixed=False, win=None, unit='h', freq='h')
         b = mk_market(D, 'base', nA, T, 'r', ec=True, periodicity='2h')      # (a horizon that ends inside a period: T odd)
     elif base == 'periodic_transport':
         b = mk_transport(D, 'base', nA, nB, eff=0.5, periodicity='2h')
+    elif base == 'orderbook_full_exec':
+        b = mk_orderbook(D, 'base', nA, tg, [(0, 2, 2.0), (1, T, -1.5)], full_exec=True)      # boolean execution variables under the scale
     elif base in ('orderbook_last_outside', 'orderbook_first_outside'):
         # an order without any step in the horizon keeps its (unmapped) variable: the scale variable comes after ALL variables of the base asset
         inside = [(0, 2, 2.0), (1, T, -1.5)]
